@@ -250,7 +250,7 @@ func (e *executableWorkflow) Execute(ctx context.Context, serializedInput any) (
 			return e.handleOutput(l, outputDataEntry)
 		case err := <-l.recentErrors: // The context is done, so instead just check for errors.
 			// Put it back in the channel
-			l.recentErrors <- err
+			l.reportError(err)
 			lastErrors := l.handleErrors()
 			l.logger.Errorf("workflow failed with error %s", err.Error())
 			return "", nil, lastErrors
@@ -331,6 +331,17 @@ func (l *loopState) terminateAllSteps() {
 	}
 }
 
+// reportError queues an error for Execute to report. The queue is bounded and is drained only when
+// Execute is about to return; the callers hold the run lock. Once the queue is full the run is failing
+// with the errors already queued, so a further error is logged and dropped and the caller never blocks.
+func (l *loopState) reportError(err error) {
+	select {
+	case l.recentErrors <- err:
+	default:
+		l.logger.Warningf("Too many errors queued; not queueing: %s", err.Error())
+	}
+}
+
 // getLastError gathers the last errors. If there are several, it creates a new one that consolidates
 // all non-duplicate ones.
 // This will read from the channel. Calling again will only gather new errors since the last call.
@@ -392,14 +403,14 @@ func (l *loopState) onStageComplete(
 	stageNode, err := l.dag.GetNodeByID(GetStageNodeID(stepID, *previousStage))
 	if err != nil {
 		l.logger.Errorf("Failed to get stage node ID %s (%w)", GetStageNodeID(stepID, *previousStage), err)
-		l.recentErrors <- fmt.Errorf("failed to get stage node ID %s (%w)", GetStageNodeID(stepID, *previousStage), err)
+		l.reportError(fmt.Errorf("failed to get stage node ID %s (%w)", GetStageNodeID(stepID, *previousStage), err))
 		l.cancel()
 		return
 	}
 	l.logger.Debugf("Resolving node %q in the DAG on stage complete", stageNode.ID())
 	if err := stageNode.ResolveNode(dgraph.Resolved); err != nil {
 		errMessage := fmt.Errorf("failed to resolve stage node ID %s (%s)", stageNode.ID(), err.Error())
-		l.recentErrors <- errMessage
+		l.reportError(errMessage)
 		l.cancel()
 		return
 	}
@@ -407,7 +418,7 @@ func (l *loopState) onStageComplete(
 		outputNode, err := l.dag.GetNodeByID(GetOutputNodeID(stepID, *previousStage, *previousStageOutputID))
 		if err != nil {
 			l.logger.Errorf("Failed to get output node ID %s (%w)", GetStageNodeID(stepID, *previousStage), err)
-			l.recentErrors <- fmt.Errorf("failed to get output node ID %s (%w)", GetStageNodeID(stepID, *previousStage), err)
+			l.reportError(fmt.Errorf("failed to get output node ID %s (%w)", GetStageNodeID(stepID, *previousStage), err))
 			l.cancel()
 			return
 		}
@@ -416,7 +427,7 @@ func (l *loopState) onStageComplete(
 		l.logger.Debugf("Resolving output node %q in the DAG", outputNode.ID())
 		if err := outputNode.ResolveNode(dgraph.Resolved); err != nil {
 			l.logger.Errorf("Failed to resolve output node ID %s (%w)", outputNode.ID(), err)
-			l.recentErrors <- fmt.Errorf("failed to resolve output node ID %s (%w)", outputNode.ID(), err)
+			l.reportError(fmt.Errorf("failed to resolve output node ID %s (%w)", outputNode.ID(), err))
 			l.cancel()
 			return
 		}
@@ -516,9 +527,9 @@ func (l *loopState) notifySteps() { //nolint:gocognit
 				// cancel the context.
 				delete(l.waitingOutputs, nodeID)
 				if len(l.waitingOutputs) == 0 && !l.outputDone {
-					l.recentErrors <- &ErrNoMorePossibleOutputs{
+					l.reportError(&ErrNoMorePossibleOutputs{
 						l.dag,
-					}
+					})
 					l.cancel()
 				}
 			} else {
@@ -551,7 +562,7 @@ func (l *loopState) notifySteps() { //nolint:gocognit
 			// indicate a locking issue in a step provider. This could be caused by the lock not being
 			// held when the output was marked resolved.
 			l.logger.Errorf("Cannot resolve expressions for %s (%v)", nodeID, err)
-			l.recentErrors <- fmt.Errorf("cannot resolve expressions for %s (%w)", nodeID, err)
+			l.reportError(fmt.Errorf("cannot resolve expressions for %s (%w)", nodeID, err))
 			l.cancel()
 			return
 		}
@@ -568,7 +579,7 @@ func (l *loopState) notifySteps() { //nolint:gocognit
 			// Tries to match the schema
 			if _, err := nodeItem.DataSchema.Unserialize(untypedInputData); err != nil {
 				l.logger.Errorf("Bug: schema evaluation resulted in invalid data for %s (%v)", nodeID, err)
-				l.recentErrors <- fmt.Errorf("bug: schema evaluation resulted in invalid data for %s (%w)", nodeID, err)
+				l.reportError(fmt.Errorf("bug: schema evaluation resulted in invalid data for %s (%w)", nodeID, err))
 				l.cancel()
 				return
 			}
@@ -591,7 +602,7 @@ func (l *loopState) notifySteps() { //nolint:gocognit
 				typedInputData,
 			); err != nil {
 				l.logger.Errorf("Bug: failed to provide input to step %s (%w)", nodeItem.StepID, err)
-				l.recentErrors <- fmt.Errorf("bug: failed to provide input to step %s (%w)", nodeItem.StepID, err)
+				l.reportError(fmt.Errorf("bug: failed to provide input to step %s (%w)", nodeItem.StepID, err))
 				l.cancel()
 				return
 			}
@@ -666,9 +677,9 @@ func (l *loopState) checkForDeadlocks(retries int, wg *sync.WaitGroup) {
 	)
 	if counters.starting == 0 && counters.running == 0 && !hasReadyNodes && !l.outputDone {
 		if retries <= 0 {
-			l.recentErrors <- &ErrNoMorePossibleSteps{
+			l.reportError(&ErrNoMorePossibleSteps{
 				l.dag,
-			}
+			})
 			l.logger.Debugf("DAG:\n%s", l.dag.Mermaid())
 			l.logger.Errorf("TERMINATING WORKFLOW; Errors below this error may be due to the early termination")
 			l.cancel()
